@@ -6,7 +6,7 @@
 From Coq Require Import ZArith List Bool String.
 From MxlBase Require Import ListX.
 From Core Require Import Sort GenSortFacts FnLib Model Cache Query.
-From Edit Require Import GenEditFacts ExpectedFacts ModelSM SMProofs Alias AliasProofs SMPin.
+From Edit Require Import GenEditFacts ExpectedFacts ModelSM SMProofs Alias AliasProofs SMPin Prequery PrequeryProofs.
 Import ListNotations.
 
 Theorem C03_facts_pinned :
@@ -207,3 +207,100 @@ Example C03_nonvacuous_round2 :
      = Answer (APairs [(0%N, 0%Z); (11%N, 2%Z); (12%N, 5%Z); (13%N, 2%Z)]).
 Proof. cbv zeta. repeat split; vm_compute; reflexivity. Qed.
 Print Assumptions C03_nonvacuous_round2.
+
+(** ---- third deepening round (seeded/C03-8): what a mutator does with the memoised cache ----------------------- *)
+
+(** regenerated from the source: among the 23 single-item and 7 batch mutators only scale_parameter reads self._cache
+    or mentions a method of Model that can (transitively) store a cache; nested calls of modelled mutators are steps
+    of their own.  The decorator clears BEFORE the body runs, so a body that asks a cache-building getter (to validate
+    its arguments, say) and then writes would leave the memo of the OLD content behind. *)
+Theorem C03_cache_uses_pinned :
+  (forall m : method,
+      mutator_cache_uses m = match m with
+                             | M_scale_parameter => ["_cache"%string; "_create_cache"%string]
+                             | _ => []
+                             end)
+  /\ (forall b : batch, batch_cache_uses b = []).
+Proof. split; intros []; vm_compute; reflexivity. Qed.
+Print Assumptions C03_cache_uses_pinned.
+
+(** the state machine has the same shape: after ANY history, an edit (single-item or batch, accepted or rejected)
+    other than scale_parameter / scale_parameters never BUILDS a memo -- the one it leaves is absent or the very
+    one it found *)
+Theorem C03_edits_build_no_cache :
+  forall (h : list op) (o : op),
+    is_edit o = true -> is_scale_op o = false ->
+    s_cache (fst (step (run_history h) o)) = None \/
+    s_cache (fst (step (run_history h) o)) = s_cache (run_history h).
+Proof. exact (fun h o => edit_builds_nothing (run_history h) o). Qed.
+Print Assumptions C03_edits_build_no_cache.
+
+(** ... and a single-item edit through a method that writes containers itself (every mutator but the wrappers
+    scale_parameter / make_variable_static) leaves NO memo behind, whether accepted or rejected *)
+Theorem C03_primitive_edit_leaves_no_cache :
+  forall (h : list op) (mu : mutator),
+    primitive mu = true -> s_cache (fst (step (run_history h) (Mut mu))) = None.
+Proof. exact (fun h mu => primitive_edit_leaves_no_cache (all_invalidate_from_pin C03_facts_pinned) (run_history h) mu). Qed.
+Print Assumptions C03_primitive_edit_leaves_no_cache.
+
+(** the regression model of Prequery.v ([mutate_pq pq]: the calls marked by [pq] ask a cache-building getter between
+    the decorator and their writes) is the state machine when no call is marked *)
+Theorem C03_prequery_model_unmarked_is_history :
+  forall h : list op, run_history_pq (fun _ => false) h = run_history h.
+Proof. exact run_history_pq_none. Qed.
+Print Assumptions C03_prequery_model_unmarked_is_history.
+
+(** REGRESSION (seeded/C03-8): with update_reaction(stoichiometry={.. "name" ..}) marked, C03_history_equals_fresh
+    fails.  k11 = 2, k36 = 3, x12 = 4, y16 = 1, v14 = x12 * k11 with {x12: -1, y16: 1};
+    update_reaction(v14, stoichiometry={x12: -1, y16: "k36"}); get_right_hand_side: registry and content are exactly
+    those of the real history, a memo exists where the real machine has none, and dy16/dt is answered 8 (old
+    coefficient 1) where a freshly built model -- and the real machine -- answer 24 (coefficient k36 = 3) *)
+Theorem C03_mutator_building_cache_refuted :
+  exists (h : list op) (q : query),
+    snd (ask (run_history_pq update_with_named h) q) <> snd (ask (fresh (run_history_pq update_with_named h)) q) /\
+    s_m (run_history_pq update_with_named h) = s_m (run_history h) /\
+    s_ids (run_history_pq update_with_named h) = s_ids (run_history h) /\
+    s_cache (run_history_pq update_with_named h) <> None /\
+    s_cache (run_history h) = None /\
+    snd (ask (run_history_pq update_with_named h) q) = Answer (APairs [(12%N, (-8)%Z); (16%N, 8%Z)]) /\
+    snd (ask (fresh (run_history_pq update_with_named h)) q) = Answer (APairs [(12%N, (-8)%Z); (16%N, 24%Z)]) /\
+    snd (ask (run_history h) q) = Answer (APairs [(12%N, (-8)%Z); (16%N, 24%Z)]).
+Proof. exact prequery_refuted. Qed.
+Print Assumptions C03_mutator_building_cache_refuted.
+
+(** ... and the next decorated edit (update_parameter(k36, 5)) heals the regression model: every query answers as
+    the real machine again -- the wrong answers live between the update and the next edit only, which is why the
+    harness probes a copy of the model right after EVERY edit *)
+Theorem C03_stale_memo_healed_by_next_edit :
+  forall q : query,
+    snd (ask (run_history_pq update_with_named (c038_history ++ [Mut (UpdatePar 36%N (Some (Plain 5%Z)))])) q)
+    = snd (ask (run_history (c038_history ++ [Mut (UpdatePar 36%N (Some (Plain 5%Z)))])) q).
+Proof. exact prequery_healed_by_next_edit. Qed.
+Print Assumptions C03_stale_memo_healed_by_next_edit.
+
+(** non-vacuity: the real machine on the demo -- no memo after the update, the new coefficient in the table, the
+    same with a query before the update; a coefficient name the model does not know (41) is ACCEPTED by
+    update_reaction, get_args still answers, get_right_hand_side reports the missing name (KeyError class);
+    make_variable_static of an unknown name is the edit that keeps the memo it found (rejected before any call) *)
+Example C03_nonvacuous_round3 :
+  let pre := firstn 5 c038_history in
+  let upd := Mut (UpdateRxn 14%N None None (Some [(12%N, CStat (-1)%Z); (16%N, CDyn 0%N [36%N])])) in
+  let unk := Mut (UpdateRxn 14%N None None (Some [(12%N, CStat (-1)%Z); (16%N, CDyn 0%N [41%N])])) in
+  c038_history = pre ++ [upd]
+  /\ update_with_named (UpdateRxn 14%N None None (Some [(12%N, CStat (-1)%Z); (16%N, CDyn 0%N [36%N])])) = true
+  /\ s_cache (run_history (pre ++ [Ask (QRhs None 0%Z)])) <> None
+  /\ s_cache (run_history (pre ++ [Ask (QRhs None 0%Z); upd])) = None
+  /\ snd (ask (run_history (pre ++ [Ask (QRhs None 0%Z)])) (QRhs None 0%Z)) = Answer (APairs [(12%N, (-8)%Z); (16%N, 8%Z)])
+  /\ snd (ask (run_history (pre ++ [Ask (QRhs None 0%Z); upd])) (QRhs None 0%Z)) = Answer (APairs [(12%N, (-8)%Z); (16%N, 24%Z)])
+  /\ snd (ask (run_history c038_history) (QStoich None 0%Z)) = Answer (ATable [(12%N, [(14%N, (-1)%Z)]); (16%N, [(14%N, 3%Z)])])
+  /\ snd (step (run_history pre) unk) = Accepted
+  /\ snd (ask (run_history (pre ++ [unk])) (QRhs None 0%Z)) = Answer (AErr EKey)
+  /\ snd (ask (run_history (pre ++ [unk])) (QArgs None 0%Z))
+     = Answer (APairs [(0%N, 0%Z); (12%N, 4%Z); (16%N, 1%Z); (11%N, 2%Z); (36%N, 3%Z); (14%N, 8%Z)])
+  /\ snd (step (run_history (pre ++ [Ask QIc])) (Mut (MakeVarStatic 41%N None))) = Rejected EKey
+  /\ s_cache (fst (step (run_history (pre ++ [Ask QIc])) (Mut (MakeVarStatic 41%N None)))) = s_cache (run_history (pre ++ [Ask QIc]))
+  /\ s_cache (run_history (pre ++ [Ask QIc])) <> None.
+Proof.
+  cbv zeta. repeat split; try (vm_compute; reflexivity); vm_compute; discriminate.
+Qed.
+Print Assumptions C03_nonvacuous_round3.
